@@ -39,7 +39,11 @@ var _ imap.UID // used by //@ func headers
 // clients (closures in imapserver / imapclient that call decoder methods); that
 // they preserve the sticky error is assumed here, not proved.
 
+// Func reads a maximal non-empty run of accepted bytes (it returns false when
+// the run is empty): assumed together with the callback discipline.
+//
 //@ func (dec *Decoder) Func(ptr *string, valid func(ch byte) bool) (result bool)
+//@   ensures result ==> len(*ptr) > 0
 //@   props C02:post,pre@call C04:post,pre@call C05:post,pre@call C06:bounds,assert-type,div0,panic-unreachable,pre@call
 //@   trusted
 //@   ensures old(dec.err) != nil ==> dec.err == old(dec.err)
@@ -67,6 +71,10 @@ var _ imap.UID // used by //@ func headers
 
 //@ func (dec *Decoder) ExpectAtom(ptr *string) (result bool)
 //@   ensures !result ==> dec.err != nil
+//@   ensures result ==> len(*ptr) > 0
+
+//@ func (dec *Decoder) Atom(ptr *string) (result bool)
+//@   ensures result ==> len(*ptr) > 0
 
 //@ func (dec *Decoder) ExpectNIL() (result bool)
 //@   ensures !result ==> dec.err != nil
